@@ -16,7 +16,9 @@ def find_commit(P):
         if f.kind == "assoc_fn" and f.impl_self == N.W and not f.impl_trait and f.vis == "Public":
             if N.WAL_APPEND_COMMIT in P.reach(p):
                 c.append(f)
-    return c[0] if len(c) == 1 else None
+    # the view with private same-file helpers spliced in (returns of known Ok / Err variant are threaded to the caller's matching
+    # arm), so that extracting parts of commit into helpers changes no verdict
+    return P.inlined(c[0].path) if len(c) == 1 else None
 
 
 def early_exit_oks(fn):
